@@ -9,7 +9,7 @@ for t in targets:
         r = verify_function(w, con, variant)
         print(f'== {t} [{variant}] paths={r.paths} (normal {r.normal_paths}, exc {r.exc_paths}) obligations={len(r.obligations)} '
               f'time={r.seconds:.2f}s solver={r.solver_seconds:.2f}s queries={r.queries} vac={r.vacuity}')
-        if r.error: print('   ERROR', r.error)
+        if r.error: print('   ERROR', r.error if '-t' in sys.argv else '\n'.join(r.error.splitlines()[:1] + r.error.splitlines()[-6:]))
         for o in r.obligations:
             if o.verdict != 'discharged' or '-v' in sys.argv: print('  ', o.verdict, o.name, o.backend, o.detail, o.model or '')
         print('   inlined', sorted(r.inlined), 'by contract', sorted(r.by_contract), 'ext', sorted(r.externals))
